@@ -1,2 +1,3 @@
 import Model.Basic
 import Model.LinAlg
+import Model.Hull
